@@ -234,6 +234,23 @@ class Memory:
         off = z3.simplify(off)
         w = off.size()
         res = None
+        if isinstance(r.meta, tuple) and r.meta[0] == 'table' and nbytes == r.meta[1]:
+            # constant lookup table with aligned elements: group equal entries
+            es = r.meta[1]
+            vals = []
+            for o in range(0, r.size - nbytes + 1, es):
+                bs = [r.get(o + i) for i in range(nbytes)]
+                vals.append((o, z3.simplify(z3.Concat(*reversed(bs)) if nbytes > 1 else bs[0])))
+            count = {}
+            for o, v in vals:
+                count[v.sexpr()] = count.get(v.sexpr(), 0) + 1
+            best = max(vals, key=lambda ov: count[ov[1].sexpr()])[1]
+            res = best
+            for o, v in reversed(vals):
+                if v.sexpr() == best.sexpr():
+                    continue
+                res = z3.If(off == bv(o, w), v, res)
+            return res
         for o in range(r.size - nbytes, -1, -1):
             bs = [r.get(o + i) for i in range(nbytes)]
             v = z3.Concat(*reversed(bs)) if nbytes > 1 else bs[0]
